@@ -301,6 +301,10 @@ fn hand_cases() -> Vec<Case> {
         Case { target: "js".into(), file: vec![FileEntry { table: Some("js".into()), key: "abi".into(), val: V::S("spec".into()) }], cli: vec![raw("js.abi", "legacy", V::S("legacy".into()))], attrs: vec![] },
         Case { target: "js".into(), file: vec![], cli: vec![raw("js.abi", "spec", V::S("spec".into()))], attrs: vec![raw("js.abi", "\"legacy\"", V::S("legacy".into()))] },
         Case { target: "js".into(), file: vec![FileEntry { table: Some("js".into()), key: "abi".into(), val: V::S("legacy".into()) }], cli: vec![], attrs: vec![raw("js.abi", "\"spec\"", V::S("spec".into()))] },
+        // values that contain `=` themselves (a URL with a query, a quoted assignment): everything after the first `=` is the value
+        Case { target: "demo_gen".into(), file: vec![FileEntry { table: Some("demo_gen".into()), key: "module-name".into(), val: V::S("fromfile".into()) }], cli: vec![raw("demo_gen.module_name", "https://cdn.example/greeter.mjs?v=2", V::S("https://cdn.example/greeter.mjs?v=2".into()))], attrs: vec![] },
+        Case { target: "kotlin".into(), file: vec![FileEntry { table: None, key: "lib-name".into(), val: V::S("fromfile".into()) }], cli: vec![raw("kotlin.domain", "dev.x", V::S("dev.x".into())), raw("lib_name", "a=b", V::S("a=b".into()))], attrs: vec![] },
+        Case { target: "demo_gen".into(), file: vec![], cli: vec![raw("demo_gen.relative_js_path", "../js?x=1&y=2", V::S("../js?x=1&y=2".into()))], attrs: vec![] },
         // the language-scoped variant of the one key lowering itself reads (always tied on the bridge whose acceptance
         // depends on it): scoped against shared in both directions, from each source, and another language's scope
         Case { target: "kotlin".into(), file: vec![], cli: vec![raw("lib_name", "somelib", V::S("somelib".into())), raw("kotlin.domain", "dev.x", V::S("dev.x".into())), raw("unsafe_references_in_callbacks", "false", V::B(false)), raw("kotlin.unsafe_references_in_callbacks", "true", V::B(true))], attrs: vec![] },
